@@ -28,3 +28,22 @@ def remaining(it):
 def dec(encoding, data):
     """data.decode(encoding) -- the codec itself is trusted"""
     return data.decode(encoding)
+
+
+def substr_lemma(base, p, n, lo, ln):
+    return True
+
+
+def split_facts(parts, i):
+    return True
+
+
+def is_token(x):
+    return type(x).__name__ == 'Token'
+
+
+def split_offset(parts, i):
+    raise NotImplementedError('ghost function: only meaningful inside the verifier')
+
+
+split_part = split_offset
